@@ -346,7 +346,7 @@ class NumpyExec:
     def _step(self, st):
         k, v = st[0], self.v
         if k == "leaf":
-            v[st[1]] = np.array(st[3], dtype=float).reshape(st[2])
+            v[st[1]] = np.array(st[3], dtype=float).reshape(st[2]).copy()
         elif k == "bin":
             v[st[1]] = np.asarray(BIN[st[2]](self.operand(st[3]), self.operand(st[4])))
         elif k == "un":
@@ -497,7 +497,15 @@ class DualExec:
 
     def operand(self, o):
         if o[0] == "t":
-            return self.v[o[1]], self.const[o[1]]
+            a = self.v[o[1]]
+            if self.const[o[1]]:
+                # a constant tensor transmits no gradient, even when it is a (forced-constant) view that shares
+                # memory with a non-constant tensor: read values only
+                c = np.empty(a.shape, dtype=object)
+                for idx in np.ndindex(a.shape):
+                    c[idx] = D.lift(a[idx]).const()
+                return c, True
+            return a, False
         if o[0] == "py":
             return _obj(D(o[1])), True
         a = np.empty(len(o[2]), dtype=object)
@@ -553,7 +561,10 @@ class DualExec:
                 r = np.sum(a, axis=st[3], keepdims=bool(st[4]))
             self.new(st[1], r, self.infer(st[5], [ca]), deps=self.opdeps(st[2]))
         elif k == "view":
-            a, ca = self.operand(st[3])
+            if st[3][0] == "t":
+                a, ca = self.v[st[3][1]], self.const[st[3][1]]  # the raw array: a view must share its memory
+            else:
+                a, ca = self.operand(st[3])
             vf = st[2]
             fn = {"gi": lambda x: x[ix_to_py(vf[1])], "rs": lambda x: np.reshape(x, tuple(vf[1])),
                   "tr": lambda x: np.transpose(x, tuple(vf[1])), "T": lambda x: x.T,
@@ -561,7 +572,7 @@ class DualExec:
                   "bt": lambda x: np.broadcast_to(x, tuple(vf[1]))}[vf[0]]
             r = _obj(fn(a))
             src = st[3][1] if st[3][0] == "t" else None
-            is_view = src is not None and isinstance(r, np.ndarray) and np.shares_memory(r, a) and r.size > 0
+            is_view = src is not None and isinstance(r, np.ndarray) and r.base is not None and (r.base is a or r.base is a.base)
             c = self.infer(st[4], [ca])
             if is_view:
                 v[st[1]] = r
@@ -577,7 +588,10 @@ class DualExec:
             t = v[name]
             if k == "set":
                 val, _ = self.operand(st[3])
-                t[key_to_py(st[2])] = val.copy() if isinstance(val, np.ndarray) else val
+                val = val.copy() if isinstance(val, np.ndarray) else val
+                if isinstance(val, np.ndarray) and val.ndim == 0:
+                    val = val[()]
+                t[key_to_py(st[2])] = val
             elif k == "aug":
                 o, _ = self.operand(st[3])
                 o = o.copy()
@@ -599,8 +613,12 @@ class DualExec:
             own = self.owner(name)
             # the mutated family depends on its previous version and on the operands
             ops_ = [x for x in st[2:] if isinstance(x, list) and len(x) == 2 and x[0] == "t"]
+            # (set/aug read the old contents; a plain out= target is overwritten, unless a where-mask keeps part
+            #  of it or the target is a view, in which case the rest of the base persists)
+            w_ = (st[5] if k == "outb" else st[4]) if k in ("outb", "outu") else None
+            keeps_old = k in ("set", "aug") or w_ is not None or own != name
             if not self.const[own]:
-                self.sd[own] = self.sd_full(own) | self.opdeps(*ops_)
+                self.sd[own] = (self.sd_full(own) if keeps_old else set()) | self.opdeps(*ops_)
             if self.const[own]:
                 # constants carry no partials
                 a = v[own]
